@@ -228,6 +228,30 @@ pub fn full_bundle(text: &str) -> Vec<(&'static str, String)> {
                 (halves[1].clone(), "ops_b.graphql".to_string()),
             ];
             out.push(("executable_builder", exec_builder_bundle(schema, &parts).0));
+            // apollo-smith response generation for a valid (schema, document) pair
+            if let Ok(valid_doc) = ExecutableDocument::parse_and_validate(schema, &executable, "exec.graphql") {
+                let mut st = crate::core::rng::hash_str(text);
+                let bytes: Vec<u8> = (0..1024).map(|_| crate::core::rng::splitmix64(&mut st) as u8).collect();
+                let mut resp = String::new();
+                let names: Vec<Option<String>> = valid_doc
+                    .operations
+                    .iter()
+                    .map(|op| op.name.as_ref().map(|n| n.to_string()))
+                    .collect();
+                for name in names.iter().take(3) {
+                    let mut u = arbitrary::Unstructured::new(&bytes);
+                    let r = apollo_smith::ResponseBuilder::new(&mut u, &valid_doc, schema)
+                        .with_operation_name(name.as_deref())
+                        .with_max_list_size(3)
+                        .build();
+                    match r {
+                        Ok(v) => resp.push_str(&serde_json::to_string(&v).unwrap_or_default()),
+                        Err(e) => resp.push_str(&format!("ERR {e:?}")),
+                    }
+                    resp.push('\n');
+                }
+                out.push(("smith_response", resp));
+            }
         }
     }
     out
